@@ -282,7 +282,7 @@ impl Campaign for LoopCampaign {
     if self.write_faults { for f in ["os_write_eagain_under_real_writer", "os_write_epipe_under_real_writer", "os_write_ebadf_under_real_writer", "os_read_ebadf_under_real_driver"] { acc.declare_fault(f); } }
     if self.hybrid { for f in ["os_write_eagain_at_nth_write_syscall", "os_write_eio_at_nth_write_syscall", "os_write_eintr_at_nth_write_syscall"] { acc.declare_fault(f); } }
     if self.hybrid { if !self.force_syspoll { acc.declare_probe("real_driver_polls_cross_checked"); } acc.declare_probe("polls_through_the_shipped_real_driver_poll"); acc.declare_probe("wait_syscall_timed_out_in_simulated_kernel"); acc.declare_fault("wait_syscall_interrupted_eintr"); acc.declare_fault("wait_syscall_fabricated_readiness"); acc.declare_fault("wait_syscall_stale_edge_dropped"); }
-    if self.write_faults { acc.declare_fault("os_read_eio_from_nth_read_syscall_under_real_driver"); for f in ["os_poll_ebadf_under_real_driver", "os_poll_einval_under_real_driver", "os_poll_efault_under_real_driver"] { acc.declare_fault(f); } }
+    if self.write_faults { acc.declare_fault("os_read_eio_from_nth_read_syscall_under_real_driver"); acc.declare_fault("os_read_eio_at_nth_read_syscall_only_transient"); for f in ["os_poll_ebadf_under_real_driver", "os_poll_einval_under_real_driver", "os_poll_efault_under_real_driver"] { acc.declare_fault(f); } }
     acc.declare_probe("wakeup_with_two_or_more_events"); acc.declare_probe("both_devices_ready_in_one_wakeup");
     if self.property == "C11" || self.property == "C12" || self.property == "C10" { acc.declare_probe("repeat_chords_sent"); acc.declare_probe("timer_ticks"); }
     if self.property == "C11" || self.property == "C09" { for p in ["chord_while_keys_held", "chord_with_repeat_key_already_held", "timer_disarmed_by_key_event", "ignored_event_while_timer_armed", "poll_with_overdue_timer"] { acc.declare_probe(p); } }
@@ -315,6 +315,7 @@ impl Campaign for LoopCampaign {
       acc.probe_n("polls_through_the_shipped_real_driver_poll", s.sys_polls_through_real_driver); acc.probe_n("wait_syscall_timed_out_in_simulated_kernel", s.sys_wait_timeouts); acc.probe_n("wait_syscall_sub_millisecond_timeout_truncated_by_driver", s.sys_subms_truncated);
       acc.fault("wait_syscall_interrupted_eintr", s.sys_wait_eintr); acc.fault("wait_syscall_fabricated_readiness", s.sys_fabricated_ready); acc.fault("wait_syscall_stale_edge_dropped", s.sys_stale_dropped);
       acc.fault("os_read_eio_from_nth_read_syscall_under_real_driver", s.os_sysread_fault);
+      acc.fault("os_read_eio_at_nth_read_syscall_only_transient", s.os_sysread_once);
       acc.fault("os_write_eagain_at_nth_write_syscall", s.os_syswrite_fault[0]); acc.fault("os_write_eio_at_nth_write_syscall", s.os_syswrite_fault[1]); acc.fault("os_write_enospc_at_nth_write_syscall", s.os_syswrite_fault[2]); acc.fault("os_write_eintr_at_nth_write_syscall", s.os_syswrite_fault[3]);
       acc.probe_n("failed_write_left_partial_frame_on_device", s.syswrite_partial_frames); acc.probe_n("failed_write_retried_by_writer_and_delivered_once", s.syswrite_retried_ok);
       acc.fault("os_poll_ebadf_under_real_driver", s.os_poll_fault[0]); acc.fault("os_poll_einval_under_real_driver", s.os_poll_fault[1]); acc.fault("os_poll_efault_under_real_driver", s.os_poll_fault[2]);
@@ -404,8 +405,14 @@ impl Campaign for LoopCampaign {
       // the middle of whatever the reader does inside one call (skipping records, resynchronising)
       if verdict.is_none() {
         'outer4: for (n, tablet) in [(out.stats.sys_reads_kbd as usize, false), (out.stats.sys_reads_tab as usize, true)] {
-          for k in 0..n {
-            let mut ck = case.clone(); ck.sysread_fault = Some((k, tablet));
+          // every call number twice: the reads fail from that call on (the descriptor is dead), or
+          // only that one call fails and the next ones work again (a transient failure, which the loop
+          // must report just the same: EIO is not EINTR). One call number beyond the schedule's own
+          // count is included, for a tree that reads more often than the unchanged one.
+          for kk in 0..2 * (n + 1) {
+            let k = kk / 2; let once = kk % 2 == 1;
+            if !once && k >= n { continue; }
+            let mut ck = case.clone(); ck.sysread_fault = Some((if once { crate::loopsim::SYSREAD_ONCE + k } else { k }, tablet));
             match run_b(&ck, None) {
               Ok(ok) => {
                 evaluations_extra += 1;
@@ -414,7 +421,7 @@ impl Campaign for LoopCampaign {
                 let v = match catch_unwind(AssertUnwindSafe(|| check_trace(&l, &ok.trace, &ok.result, &en, &mut o2))) { Ok(v) => v, Err(e) => { harness_error = Some(format!("reference loop panicked: {}", panic_msg(&e))); None } };
                 state_hashes.push(o2.shape);
                 digest = crate::rng::mix(digest, ok.digest);
-                if ok.stats.os_sysread_fault == 0 { acc.count("sysread_faults_not_reached_on_reexecution", 1); }
+                if ok.stats.os_sysread_fault == 0 && k < n { acc.count("sysread_faults_not_reached_on_reexecution", 1); }
                 if let Some(v) = v { verdict = Some(v); fail_case = ck; break 'outer4; }
               }
               Err(_) => { acc.count("sut_panics_in_sweep", 1); }
